@@ -15,7 +15,8 @@ EXPLANATION = (
     "allowed_species setter clears all three caches and re-examines reaction_list + _skipped_reactions through add_reaction; R3 command wiring: "
     "every option / argument name the five commands read (literal or f-string with a finite expansion) is declared by that command; R4 the caches "
     "are read, not recomputed differently: species / find_source_sink / grain_groups derive from _reactants, _products and the declared extra "
-    "species only.")
+    "species only; R5 removal by positions removes exactly those positions and the de-duplicating callers pass positions (shared with C15.R4); "
+    "R6 every property view of Network is recomputed on each read, or, if it memoises, every method that writes one of its inputs resets the memo.")
 ASSUMPTIONS = [
     "equivalence with a reference model after arbitrary histories (order of reactions after re-filtering, identity of removed duplicates) is not decided",
 ]
@@ -35,8 +36,10 @@ def check(ctx):
     _r3(ctx, pkg)
     _r4(ctx, pkg)
     # removal by a list of positions removes exactly those positions (shared with C15.R4)
-    from .c15 import _r4 as removal_rule
+    from .c15 import _r4 as removal_rule, _r4_callers
     removal_rule(ctx, pkg, "R5")
+    _r4_callers(ctx, pkg, "R5")
+    _r6(ctx, pkg)
 
 
 def _mutations(fl):
@@ -308,8 +311,105 @@ def _r4(ctx, pkg):
               found=f"{show(simp(src[0][0]))[:50] if src else ''} / {show(simp(snk[0][0]))[:50] if snk else ''}")
 
 
+# ------------------------------------------------------------------ R6  derived views follow every edit
+
+MUTATORS = {"append", "add", "update", "pop", "remove", "clear", "extend", "insert", "sort", "reverse", "discard", "difference_update", "intersection_update", "setdefault", "popitem"}
+
+
+def _self_reads(fn):
+    return {n.attr for n in ast.walk(fn) if isinstance(n, ast.Attribute) and isinstance(n.value, ast.Name) and n.value.id == "self" and isinstance(n.ctx, ast.Load)}
+
+
+def _self_writes(fn):
+    """attributes of self a function stores to or mutates in place -> {attr: line}"""
+    out = {}
+    for n in ast.walk(fn):
+        tgts = []
+        if isinstance(n, ast.Assign):
+            tgts = n.targets
+        elif isinstance(n, (ast.AugAssign, ast.AnnAssign)):
+            tgts = [n.target]
+        for t in tgts:
+            for e in (t.elts if isinstance(t, ast.Tuple) else [t]):
+                b = e
+                while isinstance(b, ast.Subscript):
+                    b = b.value
+                if isinstance(b, ast.Attribute) and isinstance(b.value, ast.Name) and b.value.id == "self":
+                    out.setdefault(b.attr, n.lineno)
+        if isinstance(n, ast.Call) and isinstance(n.func, ast.Attribute) and n.func.attr in MUTATORS:
+            b = n.func.value
+            if isinstance(b, ast.Attribute) and isinstance(b.value, ast.Name) and b.value.id == "self":
+                out.setdefault(b.attr, n.lineno)
+    return out
+
+
+def _r6(ctx, pkg):
+    """A view of the network (species, elements, grains, ...) is recomputed from the live caches on every read, or -- if it
+    memoises -- every writer of anything it is computed from resets the memo."""
+    ci = pkg.cls("Network")
+    getters, others = {}, {}
+    for fn in ci.node.body:
+        if not isinstance(fn, ast.FunctionDef):
+            continue
+        decs = [ast.unparse(d) for d in fn.decorator_list]
+        if "property" in decs or any(d.endswith("cached_property") for d in decs):
+            getters[fn.name] = fn
+        else:
+            others.setdefault(fn.name + ("@setter" if any(d.endswith(".setter") for d in decs) else ""), fn)
+    n = 0
+    for name, fn in sorted(getters.items()):
+        n += 1
+        decs = [ast.unparse(d) for d in fn.decorator_list]
+        key = f"Network.{name}:view is live"
+        if any("cache" in d for d in decs):
+            ctx.bad("R6", key, (NF, fn.lineno), f"the view is memoised by decorator ({decs}) and can never follow an edit of the network", found=", ".join(decs))
+            continue
+        # a memo is an attribute the getter reads BEFORE (re)computing it; store-then-return recomputes on every read
+        first_load = {}
+        for x in ast.walk(fn):
+            if isinstance(x, ast.Attribute) and isinstance(x.value, ast.Name) and x.value.id == "self" and isinstance(x.ctx, ast.Load):
+                first_load[x.attr] = min(first_load.get(x.attr, x.lineno), x.lineno)
+        memo = {a: ln for a, ln in _self_writes(fn).items() if a in first_load and first_load[a] < ln}
+        if not memo:
+            ctx.ok("R6", key, (NF, fn.lineno), "recomputed on every read (the getter keeps nothing in the instance)")
+            continue
+        # inputs: self attributes read (through other getters too), apart from the memo itself
+        inputs, todo, seen = set(), [fn], set()
+        while todo:
+            g = todo.pop()
+            for a in _self_reads(g):
+                if a in memo or a in seen:
+                    continue
+                seen.add(a)
+                if a in getters:
+                    todo.append(getters[a])
+                elif a.startswith("_") or a == "reaction_list":
+                    inputs.add(a)
+        missing = []
+        for oname, ofn in sorted(others.items()):
+            if oname == "__init__":
+                continue
+            w = _self_writes(ofn)
+            hit = sorted(a for a in w if a in inputs)
+            if hit and not all(m in w for m in memo):
+                missing.append((oname, hit, w[hit[0]]))
+        for oname, hit, ln in missing:
+            ctx.bad("R6", f"{key}:reset in {oname}", (NF, ln), f"Network.{name} memoises its result in self.{sorted(memo)[0]}, which is computed from {sorted(inputs)}; "
+                    f"`{oname}` changes {hit} without resetting the memo: the view (and everything rendered from it) is stale after that edit",
+                    expected=f"self.{sorted(memo)[0]} = None in every writer of {sorted(inputs)}", found=f"{oname} writes {hit}")
+        if not missing:
+            ctx.ok("R6", key, (NF, fn.lineno), f"memo {sorted(memo)} is reset by every writer of {sorted(inputs)}")
+    ctx.floor("R6", "views of Network", n, 15)
+
+
 EXT = "naunet/console/commands/extend.py"
 MUTANTS = [
+    {"name": "species-memo-missing-reset", "edits": [
+        {"file": NF, "old": "            list[Species]: species in the network\n        \"\"\"\n", "new": "            list[Species]: species in the network\n        \"\"\"\n        if self._spc is not None:\n            return list(self._spc)\n"},
+        {"file": NF, "old": "        speclist = sorted(speclist, key=lambda x: (len(connection[x]), x))\n", "new": "        speclist = sorted(speclist, key=lambda x: (len(connection[x]), x))\n        self._spc = speclist\n"},
+        {"file": NF, "old": "        self._skipped_reactions = []\n\n        # TODO: rename", "new": "        self._skipped_reactions = []\n        self._spc = None\n\n        # TODO: rename"}], "rules": ["R6"]},
+    {"name": "elements-cached-property", "file": NF, "old": "    @property\n    def elements(self)", "new": "    @__import__('functools').cached_property\n    def elements(self)", "rules": ["R6"]},
+    {"name": "extend-removes-dupes-by-object", "file": "naunet/console/commands/extend.py", "old": "            _, dupidx, _ = net.find_duplicate_reaction()\n            net.remove_reaction(dupidx)", "new": "            dupes, _, _ = net.find_duplicate_reaction()\n            net.remove_reaction(dupes)", "rules": ["R5"]},
     {"name": "products-update-deleted", "file": NF, "old": "        self._products.update(new_products)\n", "new": "", "rules": ["R1", "R2"]},
     {"name": "any-for-all", "file": NF, "old": "            if not all(\n                [\n                    rp in self._allowed_species", "new": "            if not any(\n                [\n                    rp in self._allowed_species", "rules": ["R2"]},
     {"name": "skipped-not-cleared", "file": NF, "old": "        self.reaction_list = []\n        self._skipped_reactions = []\n\n        for reaction in recorded_reactions:", "new": "        self.reaction_list = []\n\n        for reaction in recorded_reactions:", "rules": ["R2"]},
